@@ -305,3 +305,22 @@ func deref(t types.Type) types.Type {
 	}
 	panic(fmt.Sprintf("deref of non-pointer %v", t))
 }
+
+// refsBelow: every reference leaf of the value denotes an allocated object.
+func refsBelow(t types.Type, ls []Term, alloc Term) Term {
+	var cs []Term
+	for i, l := range layout(t) {
+		switch l.Role {
+		case "base":
+			cs = append(cs, Lt(ls[i], alloc))
+		case "":
+			if l.Sort == SInt {
+				switch l.Typ.Underlying().(type) {
+				case *types.Pointer, *types.Map, *types.Chan:
+					cs = append(cs, Lt(ls[i], alloc))
+				}
+			}
+		}
+	}
+	return And(cs...)
+}
